@@ -100,11 +100,31 @@ def replay_family(ctx, fam, behs, env=None, race=False, exhaustive_depth=None, b
             if n_seq < 2:
                 # the point of death moves (collector timing): does the process die on EVERY run of this batch?
                 deaths = []
+                good = None
                 for _ in range(3):
                     rc4, out4, mm4, s4 = _run(ctx, binary, fam, part, env)
                     if s4 is None:
                         deaths.append(_progress(ctx, fam))
                         last = out4
+                    else:
+                        good = (mm4, s4)
+                if not deaths:
+                    # the death / stall was seen ONCE in eight runs over these behaviours (twice alone, twice the same sequence,
+                    # three times the whole batch): the three complete runs of the batch decide; the incident is recorded
+                    if mms:
+                        del all_mms[-len(mms):]
+                    mm4, s4 = good
+                    for m in mm4:
+                        m["beh"] += start
+                    all_mms += mm4
+                    for k in ("runs", "behaviours", "mismatches"):
+                        total[k] += s4[k]
+                    total["debug_steps"] = total.get("debug_steps", 0) + s4.get("debug_steps", 0)
+                    total["worlds"] = s4["worlds"]
+                    ctx.cov["unreproduced_driver_incidents"] = ctx.cov.get("unreproduced_driver_incidents", 0) + 1
+                    ctx.note("family %s: the driver died / stalled once at behaviour %d (rc=%s: %s) and on none of 7 further runs (2 alone, 2 same "
+                             "sequence, 3 whole batch); the complete runs decide" % (fam, start + idx, rc, out[-160:].replace("\n", " ")))
+                    break
                 if len(deaths) < 3:
                     raise vlib.Broken("driver died on behaviour %d but neither alone nor on the same sequence again (rc=%s): %s" % (
                         start + idx, rc, out[-1500:]))
